@@ -15,11 +15,17 @@ package staticfiles
 //@   pure
 //@ extern invoke:(io/fs.FileInfo).IsDir
 //@   pure
+//@ extern strings.TrimSpace
+//@   pure
+//@ extern (net/http.Header).Set
 
 //@ func (FileServer).serveFile
 //@   requires r != nil && r.URL != nil
 //@   at call net/http.ServeContent assert [sink_not_hidden] !fs.IsHidden(statOf(f))
 //@   at call net/http.ServeContent assert [sink_not_dir] !statOf(f).IsDir()
+//@   // C18: a precompressed sibling is only chosen in a coding the client offered, and is announced with its own size
+//@   at call (net/http.Header).Set#2 assert [coding_was_offered] exists(j, 0, len(acceptEncoding), strings.TrimSpace(acceptEncoding[j]) == encoding.name)
+//@   at call (net/http.Header).Set#2 assert [announces_that_coding] arg2 == encoding.name && arg1 == "Content-Encoding"
 //@   loop 3 invariant d == statOf(f)
 //@   loop 4 invariant d == statOf(f) && !fs.IsHidden(d) && !d.IsDir()
-//@   loop 5 invariant d == statOf(f) && !fs.IsHidden(d) && !d.IsDir()
+//@   loop 5 invariant d == statOf(f) && !fs.IsHidden(d) && !d.IsDir() && !accepted
